@@ -310,6 +310,17 @@ def classify_site(ast, path, frec, site, par):
                 return "if-let-tail", True, "failure value is the function's result (null ip / flag)"
             return "if-let", False, f"failure branch does not end the function ({why if isinstance(why, str) else 'value not in tail position'})"
     if pn["t"] == "Match" and k == "expr":
+        c = pm.canon(pn)
+        if c.get("t") == "If" and c["cond"].get("t") == "Let" and c["cond"]["pat"]["t"] == "PTupleStruct" and c["cond"]["pat"]["path"]["name"] in ("Some", "Option::Some"):
+            els = c["else"]
+            t, why = terminates(els)
+            if has_effects(ast, path, els):
+                return "match", False, "the failure arm performs I/O or a tape write"
+            if t is True:
+                return "match-return", True, "match x { Some(..) => .., None => return .. }"
+            if t is None and in_tail_position(pn, fnode, par):
+                return "match-tail", True, "failure value is the function's result (null ip / flag)"
+            return "match", False, f"failure arm does not end the function ({why if isinstance(why, str) else 'value not in tail position'})"
         return "match", False, "match on the I/O result is not one of the accepted idioms (fail closed)"
     return "ignored", False, "the Option is dropped: absence/failure of the stream is ignored"
 
@@ -525,11 +536,21 @@ def run_lim(res, ast, with_jit=True):
                         br = True
             res.check(br, "LIM-BACKEDGE", f"{BCMOD}|build_threaded_code|branches", w, "under `limited` both BrZ and BrNZ must be preceded by emit_limit")
             okf = False
+
+            def norm_blocks(n):
+                if isinstance(n, list):
+                    return [norm_blocks(x) for x in n]
+                if isinstance(n, dict):
+                    n = {k: (norm_blocks(v) if isinstance(v, (dict, list)) else v) for k, v in n.items()}
+                    if n.get("t") == "Block":
+                        n["stmts"] = pm.inline_pure_lets(n["stmts"])
+                    return n
+                return n
             for l in loops[1:]:
-                for loc in walk_t(l, "Local"):
-                    if loc["init"] is None:
-                        continue
-                    if pm.match_expr(loc["init"], f"{b1['__v_start']}[__v_i.wrapping_add_signed(__v_off)] as isize - {b1['__v_offs']}[__v_i] as isize"):
+                ln = norm_blocks(l)
+                for c_ in walk_t(ln, "Call"):
+                    if path_name(c_["func"]) == "adjust_branch" and len(c_["args"]) == 2 and \
+                            pm.match_expr(c_["args"][1], f"{b1['__v_start']}[__v_i.wrapping_add_signed(__v_off)] as isize - {b1['__v_offs']}[__v_i] as isize"):
                         okf = True
             res.check(okf, "LIM-BACKEDGE", f"{BCMOD}|build_threaded_code|fixup", where(BCMOD, f["node"], "build_threaded_code"),
                       "branch offsets must be start[i + off] - offset[i]: the target includes the target's budget check, the origin is the branch op itself")
@@ -537,7 +558,7 @@ def run_lim(res, ast, with_jit=True):
         lf = ast.fn(OPS, "limit")["node"]
         ps = [p_["pat"]["name"] for p_ in lf["sig"]["inputs"] if p_["t"] == "Arg" and p_["pat"]["t"] == "PIdent"]
         envl = {"__v_cxt": ps[0], "__v_mem": ps[1], "__v_ip": ps[2], "__v_r0": ps[3], "__v_r1": ps[4]} if len(ps) == 5 else {}
-        okl = pm.match_stmts(lf["body"]["stmts"],
+        okl = pm.match_stmts(pm.inline_helpers(ast, OPS, lf["body"])["stmts"],
                              "let __v_cost = (*__v_ip.add(1)).idx; if (*__v_cxt).context.budget <= __v_cost { (*__v_cxt).context.budget = 0; "
                              "temps_ptr(__v_cxt).add(0).write(__v_r0); temps_ptr(__v_cxt).add(1).write(__v_r1); (*__v_cxt).context.memory.set_current_ptr(__v_mem); __v_ip.add(2) } "
                              "else { (*__v_cxt).context.budget -= __v_cost; noop(__v_cxt, __v_mem, __v_ip.add(2), __v_r0, __v_r1) }", envl) is not None
